@@ -77,6 +77,10 @@ CHECKS = {
    technique="TLA+ spec of address assignment and socket binding (VNetAddr.tla) + TLC MC (AtMostOneCovers, NICsInSubnet) + transition tours through the four bind entry points, random bind/close histories with stale double-closes, 1001-bind ephemeral exhaustion, and 270-NIC static/automatic mixes; traces validated by TLC",
    text="TLC checks that at most one open socket covers any address and that NIC addresses stay inside the subnet for all small histories; every transition of the bind/close graph is replayed on a real Net through ListenUDP/ListenPacket/DialUDP/Dial with wildcard, loopback, two host addresses and a foreign address, specific and zero ports, probing after each step which socket an inbound datagram would reach; seeded histories add stale double-closes and exhaust the 5000-5999 range on one address, the wildcard and a mix; on routers, seeded mixes of static (inside/outside the subnet, inside the automatic range, .0/.255) and automatic assignment attach 270 NICs (hosts and child routers); TLC validates every result: bind succeeds exactly when the ip is bindable and uncovered, chosen ephemeral port free and in range, failure only when none is free, close frees, demux to the covering socket, automatic address in subnet and unheld.",
    note="demux is observed on the host's socket table in-package (udpConns.find); an automatic assignment may report an error at any time; duplicate statics are not exercised"),
+ "C01": dict(engine="tlc-trace", design_ref="DESIGN.md §4 C01",
+   technique="TLA+ spec of routing + NAT over a router tree (VNet.tla) + TLC MC (ReplyReaches, StrangerFiltered for all 9 NAPT types) + generated topologies and traffic plans on the real vnet in virtual time, every router hop observed through a pass-through chunk filter; hop/recv/flush traces validated by TLC",
+   text="TLC checks on the spec that a reply to the shown source reaches the original sender's socket and that strangers are filtered per the filtering behaviour, for every NAPT type. The real vnet is built (public API) as flat, single-NAT (one or two WAN addresses), nested to depth 3 and 1:1 topologies with seeded NAT types and optional router delays; concurrent senders write to every socket of the WAN hosts, receivers reply to every source they were shown, strangers/unbound ports/unroutable/loopback/hairpin/other-WAN-address destinations are probed, same-flow bursts run from concurrent senders, empty datagrams are sent; each router reports every datagram it dequeues, each socket what it reads; TLC follows each datagram hop by hop: correct next router and rewritten addresses, NAT decisions in the order the routers made them, delivery at most once, only at the covering socket, with the translated source and full intact payload, per-flow order, and nothing admitted missing when the queues have drained.",
+   note="NAT lifetimes exceed the run; queues far below capacity; an inbound datagram racing the outbound one that permits it may go either way (judged only when the permission was confirmed); empty datagrams are identified out of band"),
 }
 
 def main():
